@@ -34,6 +34,9 @@ def run(ck, with_order=True):
         # the trimming of a hunk and the frozen line rest on the context counts the parser stores (C01-R6)
         from . import c01 as _c01
         _c01.r6(ck, rule="C03-R5")
+        # hunks reported failed contribute nothing, applied ones everything: every hunk is tried and every report is spliced (C04-R7)
+        from . import c04 as _c04
+        _c04.r7_every_hunk_is_visited(ck, rule="C03-R3b")
     am = ck.anchor("FilePatch::<'a, &'a [u8]>::apply_modify")
     tah = ck.anchor("libpatch::patch::try_apply_hunk")
     if am is None or tah is None:
